@@ -96,6 +96,7 @@ def make (c):
         # the repository's antennas (wires only; sources and loads by location): coordinates with few digits,
         # axis-parallel wires, so that the pieces of a split wire have bitwise equal segment lengths
         spec = corpus.located (corpus.make (c, 6))
+        rng  = corpus.rng_of (c, 6)
         if spec ['media'] is not None:
             spec ['media'] = [[0.0, 0.0, 0.0, None]]
             spec.pop ('boundary', None)
